@@ -288,7 +288,7 @@ def run_check(prop, tier, repo=REPO, write_evidence=True, quiet=False):
     # Only for rules whose condition is about what the code computes on its paths (not about WHICH function does something — writer
     # inventories, call-graph cycles, reviewed panic sites — nor for the variant walks, whose coordinates are tied to the parameters).
     INLINE_RULES = ("C10.UNDO", "C01.ESC", "C13.CALLEE", "C13.CHK", "C07.REF.b", "C11.EDGES", "C06.PATCH", "C06.JT", "C17.PRE", "C14.ARITH", "C14.CAST", "C14.ZERO",
-                    "C07.UTF8", "C12.SETSRC", "C08.PEEK", "C03.ITER", "C03.JUMP", "C02.SC", "C04.VM", "C04.BLOCK", "C20.URL", "C20.B64", "C20.JSON", "C16.ORDUSE", "C05.REC", "C05.SAME", "C07.PAIR", "C12.NOTE", "C09.FUSED", "C09.DUMPVAR", "C18.IOERR", "C12.SRC")
+                    "C07.UTF8", "C12.SETSRC", "C08.PEEK", "C03.ITER", "C03.JUMP", "C02.SC", "C04.VM", "C04.BLOCK", "C20.URL", "C20.B64", "C20.JSON", "C16.ORDUSE", "C05.REC", "C05.SAME", "C07.PAIR", "C12.NOTE", "C09.FUSED", "C09.DUMPVAR", "C18.IOERR", "C12.SRC", "C18.WRAP")
     if any((not i.ok) and (prop, i.key) not in known and i.rule in INLINE_RULES for i in rep.instances) and not os.environ.get("TV_NO_INLINE"):
         ctx2 = Ctx(prop, tier, repo)
         ctx2.inline = True
